@@ -4,6 +4,7 @@ import Driver.Fn
 import Driver.Stream
 import Driver.Conn
 import Driver.Mpart
+import Driver.Own
 
 namespace Driver
 
@@ -34,6 +35,7 @@ def step (s : St) (line : String) : St × String :=
   | "fn" :: rest => (s, fnOp rest)
   | "urlenc" :: rest => (s, urlencOp rest)
   | "mpart" :: rest => (s, mpartOp rest)
+  | "own" :: rest => (s, ownOp rest)
   | w :: rest =>
     match connId w with
     | some k => let (o, out) := connOp (s.getConn k) rest; (s.setConn k o, out)
